@@ -83,6 +83,7 @@ VARIANTS = {
     "lfric": ["plain", "acc", "edit1", "const20", "const100"],
 }
 FOREIGN_TEXT = b"some code\n"
+KERNEL_FILE = re.compile(r"^\w+_\d+_mod\.f90$")
 KNOWN_BUCKET = "single:identical-rejected"
 
 
@@ -231,12 +232,17 @@ def execute(case, schedule):
                 status, msg = "ok", ""
             else:
                 status, msg = type(run.exc).__name__, str(run.exc)
+            # only kernel-file names matter (not e.g. temporary files or
+            # descriptors that were not opened through the proxies)
+            created = [n for n in run.created if KERNEL_FILE.match(n)]
+            writes = {n: d for n, d in run.writes.items()
+                      if KERNEL_FILE.match(n)}
             info = {"id": i - npre, "spec": specs[i], "status": status,
                     "msg": msg, "orig_name": orig[i][0],
                     "orig_mod": orig[i][1], "name": kern.name,
                     "module_name": kern.module_name,
                     "modified": kern.modified,
-                    "created": list(run.created), "writes": run.writes,
+                    "created": created, "writes": writes,
                     "reads": run.reads, "psy_problem": None}
             if status == "ok":
                 info["psy_problem"] = psy_layer_problem(psy, kern)
@@ -370,6 +376,15 @@ def judge(case, out):
             fails.append((f"{scheme}:foreign-modified",
                           f"pre-existing file {name} was modified: "
                           f"{files.get(name)!r:.80}"))
+    for name, data in sorted(files.items()):
+        # whoever wrote it: a kernel file declares the module of its name
+        if name in foreign or not data or not name.endswith("_mod.f90"):
+            continue
+        text = data.decode(errors="replace")
+        mods = re.findall(r"(?im)^\s*module\s+(\w+)\s*$", text)
+        if [m.lower() for m in mods] != [name[:-4].lower()]:
+            fails.append((f"{scheme}:file-stem", f"{name} declares "
+                          f"module(s) {mods}"))
     for run in runs:
         if run["status"] == "Runaway":
             fails.append((f"{scheme}:nontermination",
@@ -433,7 +448,9 @@ def judge(case, out):
                 fails.append(("multiple:fresh-file", f"{tag(run)} uses "
                               f"{fname} but opened {run['created']} for "
                               f"writing"))
-            written = run["writes"].get(fname, b"")
+            written = run["writes"].get(fname)
+            if written is None:
+                continue    # not written through a tracked descriptor
             if fname in files and files[fname] != written:
                 fails.append(("multiple:overwritten", f"{fname}: final "
                               f"content ({len(files[fname])} bytes) differs "
@@ -489,7 +506,7 @@ def judge_single(case, out, tag):
                           f"{fname} but raised {wrt['status']}: "
                           f"{wrt['msg']:.200}"))
         wref = reference(api, wrt["spec"], 0)
-        if files.get(fname) != wref or wrt["writes"].get(fname) != wref:
+        if files.get(fname) != wref or wrt["writes"].get(fname, wref) != wref:
             fails.append(("single:content", f"{fname}: final content "
                           f"({len(files.get(fname, b''))} bytes) / bytes "
                           f"written by its creator {tag(wrt)} "
@@ -519,7 +536,8 @@ def judge_single(case, out, tag):
                               f"kernel as {tag(wrt)} (creator of {fname}) "
                               f"but was rejected after reading {nseen} of "
                               f"{len(wref)}: {run['msg']:.160}"))
-    extra = sorted(set(files) - expected_files)
+    extra = sorted(n for n in set(files) - expected_files
+                   if KERNEL_FILE.match(n))
     if extra:
         fails.append(("single:extra-file", f"unexpected files {extra}"))
     return fails
@@ -789,7 +807,8 @@ def run(ctx):
             lambda sch, case=case: check_case(ctx, case, sch, "enum",
                                               ctx.fail_now))
     ctx.extra["enumerated_schedules"] = nsched
-    ctx.extra["enumerated_configurations"] = len(cfgs)
+    if ctx.shard == 0:
+        ctx.extra["enumerated_configurations"] = len(cfgs)
     ctx.extra["exhaustive"] = False     # 3-run space is sampled in quick
 
     def prop(drawn):
